@@ -87,6 +87,7 @@ PROPS['C01'] = dict(
     modules=['contracts.dtw_py'],
     contracts=['dtw.distance'],
     lemmas=['BufFold', 'BufFold2', 'RowAllInf', 'RowLeadInf'],
+    bounded={'python-distance-vs-path-enumeration': lambda run: __import__('bounded.dtw_sweep', fromlist=['x']).sweep_python_distance(run)},
     level='proof',
     level_text='The real dtw.distance (rolling two-row buffer, window, penalty, max_step, begin- and end-psi as int or '
                '4-tuple, max_length_diff, both built-in inner distances, through the real DTWSettings / inner_dist_fns '
@@ -99,6 +100,25 @@ PROPS['C01'] = dict(
     assumptions=[PY_A1, A3_NUMPY, A7],
     not_decided=['max_dist and use_pruning (C03)', 'user-supplied inner distance object',
                  'W == optimum over warping paths: Lean lemma specs/lean/Bellman.lean (checked by setup)'],
+)
+
+PROPS['C02'] = dict(
+    modules=['contracts.dtw_c', 'contracts.dtw_py'],
+    contracts=['dd_dtw.c::dtw_distance', 'dd_dtw.c::dtw_distance_ndim', 'dd_dtw.c::dtw_distance_euclidean',
+               'dd_dtw.c::dtw_distance_ndim_euclidean'],
+    lemmas=['RowAllInf', 'RowLeadInf', 'FoldMinIsMin'],
+    bounded={'c-kernels-vs-path-enumeration-and-python': lambda run: __import__('bounded.dtw_sweep', fromlist=['x']).sweep_c_distance(run)},
+    level='proof',
+    level_text='The four C kernels are proved (unbounded) to return result_fn of the same accumulated-cost recurrence W / '
+               'psi-relaxed end value Dend that dtw.distance is proved to return (C01), in the same operation order, hence '
+               'bit-equal results at level U; bounds, overflow and asserts of the kernels are proved along the way.',
+    level_note='Trusted: dvc C semantics (A2), libm pow(x,2)==x*x / sqrt / fabs (A3), order axioms, solvers (A7), Cython '
+               'option decoding (A5). max_dist, use_pruning, only_ub are C03/C09 and excluded by precondition. The '
+               'distance-matrix routes are C06. Known encoding difference: max_length_diff=0 means "equal lengths only" in '
+               'Python and "off" in C (see known_findings.json).',
+    trusted_base=['A2: C semantics as encoded by dvc', 'A3: libm', 'A5: Cython wrappers pass options through', A7],
+    assumptions=['A2', 'A3', 'A5', A7],
+    not_decided=['max_dist / use_pruning / only_ub (C03, C09)', 'Cython option decoding (dtw_cc.pyx DTWSettings.__init__)'],
 )
 
 NOT_APPLICABLE = {p: 'not decided yet: machinery for this property is still being built (see DESIGN.md §9 order of work)' for p in ['C01', 'C02', 'C03', 'C04', 'C05', 'C06', 'C07', 'C08', 'C09', 'C10', 'C11', 'C12', 'C13', 'C14', 'C15', 'C16', 'C17', 'C18', 'C19', 'C20'] if p not in PROPS}
